@@ -85,8 +85,11 @@ class Run:
     def finish(self, prog=None):
         # instance-count floor: a rule that matches fewer sites than were
         # confirmed by hand would pass vacuously
+        failed_rules = {f.rule for f in self.findings}
         for rid, r in self.rules.items():
-            if r["instances"] < r["min"]:
+            # a rule that already reports a finding may stop early; the floor guards
+            # only against vacuous passes
+            if r["instances"] < r["min"] and rid not in failed_rules:
                 raise AnalysisError("rule %s matched %d instance(s), confirmed minimum is %d "
                                     "(anchor vanished or construct no longer recognised)"
                                     % (rid, r["instances"], r["min"]))
